@@ -79,6 +79,8 @@ def check_extraction(ctx, res: Result, dotted: str):
     fresh = _fresh_containers(v)
     rets = [n for n in walk_no_nested(v.fi.node) if isinstance(n, ast.Return) and isinstance(n.value, ast.Name) and n.value.id in fresh]
     if not fresh or not rets:
+        if _check_delegation(ctx, res, v):
+            return
         raise AnalysisError(f"{f}: no fresh container is built and returned (anchor of the must-flow rules vanished)")
     for h, ctors in fresh.items():
         if not any(r.value.id == h for r in rets):
@@ -117,6 +119,14 @@ def check_extraction(ctx, res: Result, dotted: str):
             else:
                 k = v.kind(marg)
                 res.add("X-EMETA", f, norm(c), "metadata", "ok" if (k == META or (batch and elem_of(k) == META)) else "unknown", "", loc(v.fi, c))
+        # (S) documented node set: whole-node-set insertions take ALL nodes of the source (or the requested node list)
+        params = {a.arg for a in v.fi.params}
+        for c in _calls_on(v, h, ("add_nodes",)):
+            arg = _arg(c, 0, "node_list")
+            txt = norm(arg) if arg is not None else ""
+            names = {x.id for x in ast.walk(arg) if isinstance(x, ast.Name)} if arg is not None else set()
+            ok = "self.get_nodes()" in txt or bool(names & (params - {"self"}))
+            res.check(ok, "X-NODES", f, norm(c), "all-nodes", f"the extract receives `{txt}` as its node set instead of all nodes of the source: nodes that have hyperedges, but none in the selection, are lost", loc(v.fi, c))
         # (N) node metadata: every node-creating call is followed by a transfer loop over the extract's nodes (or over
         # the very collection that was added), and no node is created after the last transfer
         creators = _calls_on(v, h, ("add_node", "add_nodes", "add_edge", "add_edges"))
@@ -142,6 +152,34 @@ def check_extraction(ctx, res: Result, dotted: str):
                 res.violation("X-NMETA", f, norm(c), "after-transfer", "nodes are added to the extract after (or without) the node-metadata transfer: they keep empty metadata", loc(v.fi, c))
             else:
                 res.ok("X-NMETA", f, norm(c), "before-transfer", loc(v.fi, c))
+
+
+def _check_delegation(ctx, res: Result, v: FuncView) -> bool:
+    """The function builds no container itself but returns `self.<other extractor>(...)`: the delegate carries the
+    must-flow obligations; here the selection handed over must be the one requested (an `up_to` selection covers
+    every order from 0 / every size from 1)."""
+    f = v.fi.short
+    dels = []
+    for n in walk_no_nested(v.fi.node):
+        if isinstance(n, ast.Return) and isinstance(n.value, ast.Call) and isinstance(n.value.func, ast.Attribute) and is_self_attr(n.value.func) and n.value.func.attr in ("subhypergraph_by_orders", "subhypergraph", "get_edges"):
+            dels.append(n.value)
+    if not dels:
+        return False
+    for c in dels:
+        res.ok("X-DELEG", f, norm(c), "delegates", loc(v.fi, c))
+        for kw in c.keywords:
+            if kw.arg in ("orders", "sizes"):
+                lo_want = 0 if kw.arg == "orders" else 1
+                exprs = [kw.value]
+                if isinstance(kw.value, ast.Name):
+                    exprs = [m.value for m in walk_no_nested(v.fi.node) if isinstance(m, ast.Assign) and isinstance(m.targets[0], ast.Name) and m.targets[0].id == kw.value.id]
+                for e in exprs:
+                    for r in ast.walk(e):
+                        if isinstance(r, ast.Call) and isinstance(r.func, ast.Name) and r.func.id == "range":
+                            lo = r.args[0] if len(r.args) >= 2 else ast.Constant(0)
+                            ok = isinstance(lo, ast.Constant) and lo.value == lo_want
+                            res.check(ok, "X-DELEG", f, norm(r), f"{kw.arg}-from-{lo_want}", f"an `up_to` selection is delegated as {norm(r)}: {kw.arg} start at {lo_want}, so hyperedges of {'order 0' if lo_want == 0 else 'size 1'} are dropped from the extract", loc(v.fi, r))
+    return True
 
 
 def _under_subset_test(v: FuncView, node) -> bool:
